@@ -507,6 +507,56 @@ for cmd, kw in (("true", {}), ("exit 3", {"warn": False}), ("sleep 5", {"timeout
     res.setdefault("after", []).append(termios.tcgetattr(sys.stdin) == before)
     if termios.tcgetattr(sys.stdin) != before:
         termios.tcsetattr(sys.stdin, termios.TCSANOW, before)
+# other starting modes of the terminal: ALL attributes must come back exactly as they were
+import copy, signal, time
+boom["on"] = False
+modes = {}
+def with_mode(name, change):
+    a = termios.tcgetattr(sys.stdin)
+    change(a)
+    termios.tcsetattr(sys.stdin, termios.TCSANOW, a)
+    b = termios.tcgetattr(sys.stdin)
+    try:
+        Context().run("true", hide=True, out_stream=out)
+    except Exception as e:
+        res.setdefault("raised_modes", []).append(type(e).__name__)
+    modes[name] = termios.tcgetattr(sys.stdin) == b
+    termios.tcsetattr(sys.stdin, termios.TCSANOW, before)
+def echo_off(a): a[3] &= ~termios.ECHO
+def no_icanon(a): a[3] &= ~termios.ICANON
+def rawish(a):
+    a[0] &= ~(termios.ICRNL | termios.IXON); a[3] &= ~(termios.ECHO | termios.ICANON | termios.ISIG)
+    a[6][termios.VMIN] = 0; a[6][termios.VTIME] = 2
+with_mode("echo off", echo_off)
+with_mode("-icanon", no_icanon)
+with_mode("raw-like, VMIN 0 VTIME 2", rawish)
+res["modes_restored"] = modes
+# the same program as a BACKGROUND job of this terminal (`inv t &`): it must not touch the terminal
+# (SIGTTOU would stop it inside run() and it would never return)
+pid = os.fork()
+if pid == 0:
+    try:
+        os.setpgid(0, 0)
+        signal.signal(signal.SIGTTOU, signal.SIG_DFL)
+        signal.signal(signal.SIGTTIN, signal.SIG_DFL)
+        Context().run("true", hide=True, out_stream=io.StringIO())
+        os._exit(0)
+    except BaseException:
+        os._exit(5)
+bg = "timeout"
+t_end = time.time() + 10
+while time.time() < t_end:
+    p, st = os.waitpid(pid, os.WNOHANG | os.WUNTRACED)
+    if p:
+        bg = "stopped by signal %%d" %% os.WSTOPSIG(st) if os.WIFSTOPPED(st) else "exit %%d" %% os.WEXITSTATUS(st) if os.WIFEXITED(st) else "killed"
+        break
+    time.sleep(0.02)
+if not bg.startswith("exit"):
+    try:
+        os.kill(pid, 9); os.waitpid(pid, 0)
+    except OSError:
+        pass
+res["background_job"] = bg
 # fd accounting with stdout redirected at descriptor level (`inv build > log`): _pty_size asks elsewhere
 import gc
 devnull = os.open(os.devnull, os.O_WRONLY)
@@ -580,6 +630,13 @@ def termios_check(tier):
     if res:
         if not all(res.get("after", [False])):
             fails.append({"case": res, "what": "terminal attributes of the input stream not restored after run()"})
+        bad = [m for m, ok in (res.get("modes_restored") or {}).items() if not ok]
+        if bad or len(res.get("modes_restored") or {}) != 3:
+            fails.append({"case": res, "what": "terminal attributes differ after run() when the terminal started "
+                                              "in mode(s): %s" % (bad or "helper did not get that far")})
+        if res.get("background_job") != "exit 0":
+            fails.append({"case": res, "what": "run() as a background job of the terminal: %s"
+                                              % res.get("background_job")})
         fds = res.get("fds") or [0, 0]
         if fds[1] > fds[0] + 1:
             fails.append({"case": res, "what": "8 pty runs with stdout redirected: file descriptors %d -> %d "
@@ -589,7 +646,9 @@ def termios_check(tier):
     return {"name": "termios-restore", "evaluations": 4 if res else 0, "failures": fails,
             "note": "helper interpreter under pty.fork (controlling terminal = sys.stdin): exit 0, exit 3 "
                     "(UnexpectedExit), timeout kill, stdin worker dying inside the character-buffered block "
-                    "(ThreadException); termios before == after each run, cbreak observed during: %s"
+                    "(ThreadException); termios before == after each run, also from three other starting modes "
+                    "(echo off, -icanon, raw-like); the same as a background job of the terminal (must not be "
+                    "stopped by SIGTTOU); cbreak observed during: %s"
                     % json.dumps(res)}
 
 
